@@ -159,12 +159,9 @@ theorem addFunc_total (args : List PVal) (hn : ∀ a ∈ args, a.NumOK) : isPani
           · simp [isPanic]
           · next hg =>
             simp at hg
-            have hi1 := hsucc hg.1
-            have hlen : (xs ++ [PVal.num 0 1]).length = xs.length + 1 := by simp
-            obtain ⟨s1, hs1⟩ := goSlice_ok (xs ++ [PVal.num 0 1]) i1 (xs ++ [PVal.num 0 1]).length (by rw [hlen]; omega)
-            obtain ⟨s2, hs2⟩ := goSlice_ok (xs ++ [PVal.num 0 1]) i (xs ++ [PVal.num 0 1]).length (by rw [hlen]; omega)
-            obtain ⟨s3, hs3⟩ := goIndex_ok (xs ++ [PVal.num 0 1]) i (by rw [hlen]; omega)
-            simp only [hs1, hs2, hs3]
+            obtain ⟨s1, hs1⟩ := goSlice_ok xs 0 i (by omega)
+            obtain ⟨s2, hs2⟩ := goSlice_ok xs i xs.length (by omega)
+            simp only [hs1, hs2]
             simp [isPanic]
         · simp [hm, isPanic]
       · simp [isPanic]
@@ -273,8 +270,8 @@ open Ecal.GoPrim Ecal.Lemmas.C06Guards in
 theorem guards_sufficient :
     (∀ xs fld, noPanic (Site.listRead xs fld)) ∧
     (∀ xs fld v, noPanic (Site.listWrite xs fld v)) ∧
-    (∀ (b : List Ecal.Ev.Val) (l : Nat) (i : Int), l ≤ b.length → noPanic (Site.del b l i)) ∧
-    (∀ cur v i, noPanic (Site.insert cur v i)) ∧
+    (∀ xs i, noPanic (Site.del xs i)) ∧
+    (∀ xs v i, noPanic (Site.insert xs v i)) ∧
     (∀ kvs k v err, err ≠ Ecal.Ev.Sig.panic → noPanic (Site.mapLit kvs k v err)) ∧
     (∀ a b err, err ≠ Ecal.Ev.Sig.panic → noPanic (Site.modint a b err)) ∧
     (∀ a b deep, noPanic (Site.valuesEqual a b deep)) ∧
@@ -286,8 +283,9 @@ open Ecal.GoPrim Ecal.Lemmas.C06Guards Ecal.Ev in
 /-- REFINEMENT. The evaluator model `Ecal.Ev` — the model that is compared with Go on every run — computes
     exactly these sites where the Go code has them: its list read (`listIndex`, then the backing array) is
     `Site.listRead` on the slice's elements; its map-literal step, its `%`, its operand match and the
-    comparable branch of its equality are the sites; `delAt` writes the backing array `Site.del` computes
-    (`del_eq`). So a difference between a guard of /repo and the guard in the site shows up in the
+    comparable branch of its equality are the sites; `delAt` / `insertAt` (after 4ad50aa: new lists) store exactly
+    what `Site.del` / `Site.insert` compute on the slice's elements (`del_eq`, `insert_eq`, `delAt_backing`,
+    `insertAt_backing`). So a difference between a guard of /repo and the guard in the site shows up in the
     correspondence run, and `guards_sufficient` is a statement about the compared model. -/
 theorem model_is_guard_then_primitive :
     (∀ (fld : List Nat) (b : List Val) (l : Nat) (s : St), l ≤ b.length →
@@ -297,26 +295,30 @@ theorem model_is_guard_then_primitive :
     (∀ a b eA eB, Site.numOperands a b eA eB =
       (match a, b with | .num x, .num y => .ok (x, y) | .num _, _ => .error eB | _, _ => .error eA)) ∧
     (∀ a b deep, (sameDyn a b && uncomparable a) = false → Site.valuesEqual a b deep = .ok (keyEq a b)) ∧
-    (∀ (b : List Val) (l : Nat) (i : Int), l ≤ b.length → Site.del b l i = if i < 0 ∨ i ≥ l then .error (plain "Out of bounds access to list")
-      else .ok (b.take i.toNat ++ (b.take l).drop (i.toNat + 1) ++ b.drop (l - 1))) :=
+    (∀ (xs : List Val) (i : Int), Site.del xs i = if i < 0 ∨ i ≥ xs.length then .error (plain "Out of bounds access to list")
+      else .ok (xs.take i.toNat ++ xs.drop (i.toNat + 1))) ∧
+    (∀ (xs : List Val) (v : Val) (i : Int), Site.insert xs v i = if i < 0 ∨ i > xs.length then .error (plain "Out of bounds access to list")
+      else .ok (xs.take i.toNat ++ [v] ++ xs.drop i.toNat)) :=
   ⟨fun fld b l s h => listRead_refines fld b l h s, mapLit_refines, modint_refines, numOperands_refines,
-   valuesEqual_refines, fun b l i h => del_eq b l i h⟩
+   valuesEqual_refines, del_eq, insert_eq⟩
 
 open Ecal.GoPrim Ecal.Lemmas.C06Guards in
 /-- NECESSITY (negative witnesses). The same sites WITHOUT their guard — the code before ee44ab4 — panic on
-    the inputs of the repaired defects: `a[-5]` read and write on a one-element list, `del([1], 5)`,
-    `add([1], 2, 7)`, `{[1]:2}`, `5 % 0`, `[1] == [1]`, an unchecked operand assertion. A proof of
+    the inputs of the repaired defects: `a[-5]` read and write on a one-element list, `del([1], 5)` and
+    `add([1], 2, 7)` (the current copying code without its test AND the in-place code before ee44ab4), `{[1]:2}`, `5 % 0`, `[1] == [1]`, an unchecked operand assertion. A proof of
     `guards_sufficient` that did not use the guards would prove these too — it cannot. -/
 theorem guards_necessary :
     Site.listReadUnguarded [Ecal.Ev.Val.null] [45, 53] = .error Ecal.Ev.Sig.panic ∧
     Site.listWriteUnguarded [Ecal.Ev.Val.null] [45, 53] Ecal.Ev.Val.null = .error Ecal.Ev.Sig.panic ∧
-    Site.delUnguarded [Ecal.Ev.Val.null] 1 5 = .error Ecal.Ev.Sig.panic ∧
-    Site.insertUnguarded [Ecal.Ev.Val.null, Ecal.Ev.Val.null] Ecal.Ev.Val.null 7 = .error Ecal.Ev.Sig.panic ∧
+    Site.delUnguarded [Ecal.Ev.Val.null] 5 = .error Ecal.Ev.Sig.panic ∧
+    Site.delOldUnguarded [Ecal.Ev.Val.null] 1 5 = .error Ecal.Ev.Sig.panic ∧
+    Site.insertUnguarded [Ecal.Ev.Val.null] Ecal.Ev.Val.null 7 = .error Ecal.Ev.Sig.panic ∧
+    Site.insertOldUnguarded [Ecal.Ev.Val.null, Ecal.Ev.Val.null] Ecal.Ev.Val.null 7 = .error Ecal.Ev.Sig.panic ∧
     Site.mapLitUnguarded [] (Ecal.Ev.Val.list 1 1) Ecal.Ev.Val.null = .error Ecal.Ev.Sig.panic ∧
     Site.modintUnguarded 5 0 = .error Ecal.Ev.Sig.panic ∧
     Site.valuesEqualUnguarded (Ecal.Ev.Val.list 1 1) (Ecal.Ev.Val.list 2 1) = .error Ecal.Ev.Sig.panic ∧
     Site.numOperandsUnguarded (Ecal.Ev.Val.num 1) (Ecal.Ev.Val.str []) = .error Ecal.Ev.Sig.panic :=
-  ⟨witness_listRead, witness_listWrite, witness_del, witness_insert, witness_mapLit, witness_modint,
+  ⟨witness_listRead, witness_listWrite, witness_del, witness_del_old, witness_insert, witness_insert_old, witness_mapLit, witness_modint,
    witness_valuesEqual, witness_numOperands⟩
 
 /-! ### the evaluator -/
